@@ -55,9 +55,9 @@ for pid in props:
     if pid in REGISTRY:
         eng.setdefault(REGISTRY[pid].get("engine", "simcore-L0"), []).append(pid)
 ENG_DESC = {"simcore-L0": ("sim/core + harness/l0", "component-level deterministic simulation: real component code (instrumented) driven by 1-8 simulated threads under a seeded scheduler"),
-            "simcore-L1": ("sim/core + harness/l1", "node-level deterministic simulation: the whole real runtime (one rank) under the seeded scheduler"),
+            "simcore-L1": ("sim/core + sim/mpi (one rank) + harness/l2", "node-level deterministic simulation: the whole real runtime (one rank) under the seeded scheduler"),
             "simcore-L2": ("sim/core + sim/mpi + harness/l2", "cluster-level deterministic simulation: P rankified runtimes in one process over a simulated MPI network"),
             "simcore-L3": ("sim/core + sim/dev + harness/l3", "node-level simulation with a simulated accelerator back-end")}
-m["engines"] = [{"name": k, "path": ENG_DESC.get(k, ("sim/core + harness", ""))[0], "serves_properties": v, "kind_free_text": ENG_DESC.get(k, ("", "deterministic simulation harness (" + k + ")"))[1]} for k, v in eng.items()]
+m["engines"] = [{"name": k, "path": ENG_DESC.get(k, ("sim/core + sim/mpi + harness/l0 + harness/l2", ""))[0], "serves_properties": v, "kind_free_text": ENG_DESC.get(k, ("", "component-level part (one rank, several simulated threads) and cluster-level part (several rankified copies over the simulated network) in one harness"))[1]} for k, v in eng.items()]
 json.dump(m, open(os.path.join(V, "MANIFEST.json"), "w"), indent=1)
 print("checks:", len(checks), "not_applicable:", len(na))
